@@ -122,7 +122,28 @@ def run(repo: Repo, rep: Report, tier: str) -> None:
 
     # ---------------------------------------------------------------- R1.6 a quoted forward reference is never an operand of `|`
     # `"Node" | None` is evaluated when the dataclass is created: str | None raises TypeError, the model module cannot be imported.
-    ts = repo.func("types.services.type_service:UnifiedTypeService._format_resolved_type")
+    from sa.report import with_flatten_fallback
+
+    with_flatten_fallback(rep, repo.func("types.services.type_service:UnifiedTypeService._format_resolved_type"), _rule_1_6)
+
+    # ---------------------------------------------------------------- R1.9
+    _dedup_site(repo.func("visit.endpoint.processors.parameter_processor:EndpointParameterProcessor.process_parameters"), "operation parameters",
+                "param_details_map", _Relabel(rep, "R1.9"))
+    from rules.c20 import rule_stored_names_are_fixed_points
+
+    rule_stored_names_are_fixed_points(repo, _Relabel(rep, "R1.9"), "R1.9")
+    po = repo.func("core.loader.operations.parser:parse_operations")
+    from rules._params import override_merge_keys
+
+    keys = override_merge_keys(po)
+    if keys is not None and keys <= {"name", "param_in"}:
+        rep.ok("R1.9", f"{po.module.relpath}:parse_operations", "operation-level parameter overrides the path-level one: no parameter is declared twice", po.loc())
+    else:
+        rep.violation("R1.9", f"{po.module.relpath}:parse_operations", f"{po.fq}|no-merge",
+                      "a parameter declared at path and operation level is emitted twice: `def f(self, id_: str, id_: int)` does not compile", po.loc())
+
+
+def _rule_1_6(ts: Function, rep) -> None:
     tcfg = CFG(ts.node)
     tdom = tcfg.dominators()
     n16 = 0
@@ -156,22 +177,6 @@ def run(repo: Repo, rep: Report, tier: str) -> None:
                           f"`{norm(nd.ast)[:60]}` can produce `\"Name\" | None`: evaluating the annotation raises TypeError (str | None), so a model with an "
                           "optional reference to itself (or to a schema in an import cycle) cannot be imported", ts.loc(nd.ast))
     rep.require(n16 >= 1, "R1.6: the statement that appends `| None` was not found in _format_resolved_type (anchor)")
-
-    # ---------------------------------------------------------------- R1.9
-    _dedup_site(repo.func("visit.endpoint.processors.parameter_processor:EndpointParameterProcessor.process_parameters"), "operation parameters",
-                "param_details_map", _Relabel(rep, "R1.9"))
-    from rules.c20 import rule_stored_names_are_fixed_points
-
-    rule_stored_names_are_fixed_points(repo, _Relabel(rep, "R1.9"), "R1.9")
-    po = repo.func("core.loader.operations.parser:parse_operations")
-    from rules._params import override_merge_keys
-
-    keys = override_merge_keys(po)
-    if keys is not None and keys <= {"name", "param_in"}:
-        rep.ok("R1.9", f"{po.module.relpath}:parse_operations", "operation-level parameter overrides the path-level one: no parameter is declared twice", po.loc())
-    else:
-        rep.violation("R1.9", f"{po.module.relpath}:parse_operations", f"{po.fq}|no-merge",
-                      "a parameter declared at path and operation level is emitted twice: `def f(self, id_: str, id_: int)` does not compile", po.loc())
 
 
 class _Relabel:
